@@ -86,6 +86,7 @@ def raising(ld, r, count):
     fails = []
     for _ in range(count):
         n = r.randint(1, 6)
+        common.tick()
         pos = r.randrange(n)
 
         def boom(x, pos=pos):
@@ -124,6 +125,7 @@ def freeze_family(ld, r, count):
         warnings.simplefilter('ignore')
         for _ in range(count):
             n = r.randint(0, 7)
+            common.tick()
             seed = r.randint(0, 10 ** 6)
             keyed = r.random() < 0.5
             lower = [r.choice(['map', 'reshuffle', 'reshuffle', 'lazyapply', 'localshuffle', 'filter', 'slice', 'shuffle1']) for _ in range(r.randint(1, 3))]
